@@ -19,6 +19,8 @@
 #include <cstring>
 #include <functional>
 #include <fcntl.h>
+#include <fstream>
+#include <sys/stat.h>
 #include <spawn.h>
 #include <sys/wait.h>
 #include <unistd.h>
@@ -76,6 +78,7 @@ struct Op
     int refKind = 0; // 0: pool item (a document for PARSE, a model otherwise); 1: result of op `ref` (printed text / returned model)
     int ref = 0;
     bool strict = true, autoIds = false, python = false, fresh = false;
+    bool files = false; // RESOLVE: an Importer without registered models, the library documents are read from files
     int amOp = -1; // GENERATE: the ANALYSE op whose AnalyserModel is used
     std::vector<unsigned> ext; // ANALYSE: external variables as positions in the traversal of the model's variables (mod count)
 };
@@ -86,6 +89,7 @@ struct CaseData
     std::vector<LibEntry> lib;
     std::vector<Op> ops;
     int probe = 0;
+    bool libFiles = false, libFileBroken = false; // the library also exists as files; the first one has a parse error inside the imported component
     std::vector<char> slice; // ops the probe depends on (including itself)
 };
 
@@ -125,10 +129,13 @@ std::string opText(const CaseData &cd, size_t i)
         if (op.svc == PRINT && op.autoIds) {
             s += ", autoIds";
         }
+        if (op.svc == RESOLVE && op.files) {
+            s += ", library read from files";
+        }
         if (op.svc == ANALYSE && !op.ext.empty()) {
             s += ", externals=";
             for (unsigned e : op.ext) {
-                s += "#" + std::to_string(e) + " ";
+                s += (e >= 48 ? "all-with-equivalents-from#" : "#") + std::to_string(e) + " ";
             }
         }
     }
@@ -150,7 +157,7 @@ std::string describe(const CaseData &cd)
         s += "--- model" + std::to_string(i) + " (" + cd.models[i].kind + ", built through the API from)\n" + clipTo(specToText(cd.models[i].spec), 6000) + "\n";
     }
     for (const auto &l : cd.lib) {
-        s += "--- importer library '" + l.key + "'\n" + clipTo(specToText(l.spec), 4000) + "\n";
+        s += "--- importer library '" + l.key + "'" + (cd.libFiles ? std::string(" (also a file") + (cd.libFileBroken && &l == &cd.lib[0] ? ", there with an unknown attribute on its first variable)" : ")") : std::string()) + "\n" + clipTo(specToText(l.spec), 4000) + "\n";
     }
     return s;
 }
@@ -185,7 +192,13 @@ void editDoc(std::string &doc, Src &src)
     case 2: replaceOne("<variable ", "stray text<variable ") || replaceOne("<component ", "stray text<component "); break;
     case 3: replaceOne(" name=\"", " nam=\""); break;
     case 4: doc = doc.substr(0, doc.size() - std::min<size_t>(doc.size(), 1 + src.below(std::max<size_t>(2, doc.size() / 2)))); break; // truncated
-    case 5: replaceOne("<ci>", "<ci>no_such_variable_") || replaceOne(" name=\"", " name=\"\" x=\""); break;
+    case 5:
+        if (doc.size() % 2 == 0) {
+            replaceOne("<ci>", "<ci>no_such_variable_") || replaceOne(" name=\"", " name=\"\" x=\"");
+        } else {
+            replaceOne("<ci>", "<ci><!-- one --> <!-- two -->") || replaceOne("</cn>", " <!-- c --> </cn>") || replaceOne(" name=\"", " name=\"\" x=\"");
+        }
+        break;
     case 6: replaceOne(" cellml:units=\"", " cellml:unitz=\""); break;
     case 7: replaceOne("cellml/2.0#", "cellml/2.1#") || replaceOne("cellml/1.1#", "cellml/1.2#") || replaceOne("cellml/1.0#", "cellml/0.9#"); break;
     case 8: { // duplicate a component element (duplicate names, duplicate ids)
@@ -303,10 +316,26 @@ void breakSpec(ModelSpec &s, Src &src, unsigned breakKind, std::string &how)
         v.name = "9lives";
         how = "variable name not an identifier";
         break;
-    case 2:
-        s.comps[pv.first].math.push_back("<math xmlns=\"http://www.w3.org/1998/Math/MathML\"><apply><eq/><ci>no_such_variable</ci><cn xmlns:cellml=\"http://www.cellml.org/cellml/2.0#\" cellml:units=\"dimensionless\">1</cn></apply></math>");
-        how = "math referencing a missing variable";
+    case 2: {
+        // three variants chosen without a tape read of their own (saved tapes keep decoding to the same histories)
+        const std::string head = "<math xmlns=\"http://www.w3.org/1998/Math/MathML\"><apply><eq/>", cnAttrs = " xmlns:cellml=\"http://www.cellml.org/cellml/2.0#\" cellml:units=\"dimensionless\"";
+        switch ((vars.size() + pv.second) % 3) {
+        case 0:
+            s.comps[pv.first].math.push_back(head + "<ci>no_such_variable</ci><cn" + cnAttrs + ">1</cn></apply></math>");
+            how = "math referencing a missing variable";
+            break;
+        case 1:
+            // whether the blank between the comments is a node of its own depends on libxml2's keep-blanks default
+            s.comps[pv.first].math.push_back(head + "<ci><!-- one --> <!-- two -->" + v.name + "</ci><cn" + cnAttrs + ">1</cn></apply></math>");
+            how = "math with comments and a blank inside ci";
+            break;
+        default:
+            s.comps[pv.first].math.push_back(head + "<ci>" + v.name + "</ci><cn" + cnAttrs + "><!-- one --> <!-- two -->1</cn></apply></math>");
+            how = "math with comments and a blank inside cn";
+            break;
+        }
         break;
+    }
     default:
         v.initial = "not_a_number_or_variable";
         how = "bad initial value";
@@ -649,6 +678,15 @@ CaseData generate(Src &src)
         cd.models.push_back(m);
     }
 
+    // ---- file-based library (no tape read of its own)
+    cd.libFiles = !cd.lib.empty() && nOps % 2 == 0;
+    cd.libFileBroken = cd.libFiles && (nOps / 2) % 2 == 0;
+    for (size_t i = 0; i < cd.ops.size(); ++i) {
+        if (cd.ops[i].svc == RESOLVE && cd.libFiles) {
+            cd.ops[i].files = (i + nOps / 2) % 2 == 0 || static_cast<int>(i) == cd.probe || static_cast<int>(i) + 1 == cd.probe;
+        }
+    }
+
     // ---- dependency slice of the probe: producers of its arguments and earlier calls that legitimately changed them
     cd.slice.assign(nOps, 0);
     std::vector<int> work = {cd.probe};
@@ -889,7 +927,7 @@ struct Exec
     ValidatorPtr validator;
     AnalyserPtr analyser;
     GeneratorPtr generator;
-    ImporterPtr importer;
+    ImporterPtr importer, fileImporter;
     AnnotatorPtr annotator;
     std::vector<ModelPtr> libModels;
     std::vector<ImporterPtr> keepAlive; // import sources hold their models weakly: an Importer must outlive the models it resolved
@@ -1095,7 +1133,19 @@ struct Exec
                     walk(m->component(k));
                 }
                 for (unsigned e : op.ext) {
-                    if (!vars.empty()) {
+                    if (vars.empty()) {
+                        break;
+                    }
+                    if (e >= 48) {
+                        // every variable that has equivalent variables, starting somewhere: several markings of non-primary
+                        // variables, hence several messages of one kind
+                        for (size_t k = 0; k < vars.size(); ++k) {
+                            const auto &v = vars[(k + e) % vars.size()];
+                            if (v->equivalentVariableCount() > 0) {
+                                a->addExternalVariable(AnalyserExternalVariable::create(v));
+                            }
+                        }
+                    } else {
                         a->addExternalVariable(AnalyserExternalVariable::create(vars[e % vars.size()]));
                     }
                 }
@@ -1152,8 +1202,25 @@ struct Exec
         }
         case RESOLVE: {
             ModelPtr m = argModel(op);
-            ImporterPtr imp = fresh ? makeImporter() : (importer != nullptr ? importer : (importer = makeImporter()));
-            bool ok = imp->resolveImports(m, kBasePath);
+            ImporterPtr imp;
+            std::string base = kBasePath;
+            if (op.files) {
+                // nothing is registered: the importer reads (and caches) the library documents itself
+                if (fresh || fileImporter == nullptr) {
+                    imp = Importer::create(true);
+                    keepAlive.push_back(imp);
+                    if (!fresh) {
+                        fileImporter = imp;
+                    }
+                } else {
+                    imp = fileImporter;
+                }
+                const char *dir = getenv("C12_DIR");
+                base = std::string(dir != nullptr ? dir : "/nonexistent-vp-c12") + "/";
+            } else {
+                imp = fresh ? makeImporter() : (importer != nullptr ? importer : (importer = makeImporter()));
+            }
+            bool ok = imp->resolveImports(m, base);
             Snapshot s = snapModel(m);
             if (hold && op.refKind == 1 && res[static_cast<size_t>(op.ref)].holdsModel) {
                 res[static_cast<size_t>(op.ref)].heldModel = s.raw; // a documented change of the argument
@@ -1567,6 +1634,9 @@ struct Judge
                 return false;
             }
             std::string loc;
+            if (svc == RESOLVE && cd.ops[static_cast<size_t>(op)].files) {
+                loc = "|from-files";
+            }
             {
                 // the same lines in another order?
                 const std::string *xa = get(sa, ra, op, part, 'r'), *xb = get(sb, rb, op, part, 'r');
@@ -1582,11 +1652,11 @@ struct Judge
                     return v;
                 };
                 if (xa != nullptr && xb != nullptr && xa->size() == xb->size() && lines(*xa) == lines(*xb)) {
-                    loc = "|order-only";
+                    loc += "|order-only";
                 }
             }
             if (part == "Analyser::model()" && (sa.info.count("am-not-replaced:" + ra + ":" + std::to_string(op)) != 0 || sb.info.count("am-not-replaced:" + rb + ":" + std::to_string(op)) != 0)) {
-                loc = "|not-replaced";
+                loc += "|not-replaced";
             }
             report(oracle + "|" + kSvc[svc] + "|" + part + loc + (tainted ? "|downstream-of-math-whitespace" : ""), where);
             return false;
@@ -1872,6 +1942,42 @@ void run(Src &tapeSrc, Case &c)
         c.cls("import-forest");
     }
 
+    // library documents as files (the worker only writes text; no library call)
+    std::string dir;
+    if (cd.libFiles) {
+        const char *runDir = getenv("VERIF_RUN_DIR");
+        dir = std::string(runDir != nullptr ? runDir : "/verif/.build/run") + "/c12-lib-" + std::to_string(static_cast<long>(getpid()));
+        mkdir(dir.c_str(), 0777);
+        for (size_t k = 0; k < cd.lib.size(); ++k) {
+            XmlOptions xo;
+            std::string text = writeXml(cd.lib[k].spec, xo);
+            if (k == 0 && cd.libFileBroken) {
+                size_t p = text.find("<variable ");
+                if (p != std::string::npos) {
+                    text.insert(p + 10, "path=\"/here\" ");
+                }
+            }
+            std::ofstream(dir + "/" + cd.lib[k].key) << text;
+        }
+        setenv("C12_DIR", dir.c_str(), 1);
+        c.cls(cd.libFileBroken ? "library-files:with-parse-error" : "library-files:clean");
+    } else {
+        unsetenv("C12_DIR");
+    }
+    struct DirCleaner
+    {
+        const CaseData &cd;
+        std::string dir;
+        ~DirCleaner()
+        {
+            if (!dir.empty()) {
+                for (const auto &l : cd.lib) {
+                    unlink((dir + "/" + l.key).c_str());
+                }
+                rmdir(dir.c_str());
+            }
+        }
+    } cleaner {cd, dir};
     Judge j {cd, c, {}, {}, {}};
     std::string sf, sh;
     auto t0 = std::chrono::steady_clock::now();
